@@ -424,6 +424,30 @@ def r02_5(ctx, fx):
     ctx.anchor("R02.5", "NoiseSocket::new: products with a configured factor", n, 4, cfg=fx.cfg)
 
 
+def r02_6(ctx, fx):
+    """a parsed frame length survives buffer compaction: `current_frame_size` holds the length prefix of a frame whose body has not
+    arrived completely.  It is written by the frame state machine (poll_read) and the constructor only; the buffer helpers
+    (reset_read_state: move the unread bytes to the front) must not touch it - with a carrier that delivers a single byte after a
+    prefix the next two body bytes would otherwise be read as a length and the stream is mis-framed."""
+    writers = {}
+    n = 0
+    for key in sorted(fx.find(r"^crypto::noise::|^<crypto::noise::")):
+        fn = fx.fn(key)
+        for node, s_ in fn.assigns():
+            if "".join(str(x) for x in s_["lhs"][1:]).endswith(".current_frame_size") and "NoiseSocket" in fn.local_ty(s_["lhs"][0]):
+                writers.setdefault(short(key), []).append(fn.site(node))
+                n += 1
+        for c in fn.calls(r"option::Option(<.*>)?::(take|replace|insert)$|mem::(take|replace)$"):
+            if c.args and ".current_frame_size" in fn.recv(c):
+                writers.setdefault(short(key), []).append(fn.site(c.node))
+                n += 1
+    ctx.anchor("R02.6", "writes of NoiseSocket.current_frame_size", n, 2, cfg=fx.cfg)
+    allowed = ("poll_read", "NoiseSocket::new")
+    bad = {k: v for k, v in writers.items() if not any(a in k for a in allowed)}
+    ctx.ob("R02.6", "current_frame_size-written-only-by-the-frame-state-machine", not bad, cfg=fx.cfg, site=(list(bad.values())[0][0] if bad else ""),
+           detail="writers: %s" % {k: len(v) for k, v in writers.items()})
+
+
 def run(ctx):
     fx = ctx.facts("default")
     r02_1(ctx, fx)
@@ -431,4 +455,5 @@ def run(ctx):
     r02_3(ctx, fx)
     r02_4(ctx, fx)
     r02_5(ctx, fx)
+    r02_6(ctx, fx)
     ctx.assume("snow's AEAD rejects altered ciphertext (read_message returns Err) and its constants.rs is the source built")
